@@ -8,6 +8,9 @@ CONSTANTS
   Spans = {}
   YieldSets = {}
   SplitKinds = {}
+  TailSplitKinds = {}
+  LateKinds = {}
+  EmptyFeeds = FALSE
   Interleave = FALSE
 INVARIANTS TypeOK Lossless Contiguous FitsBudget SmallIsPure YieldStartsNewBatch
 POSTCONDITION TraceAccepted
